@@ -26,6 +26,20 @@ let handle (f : string array) : string =
     (match sm4GCM e key iv c a false with
      | Ok (p, t) -> "ok " ^ hex_of_bytes t ^ " " ^ hex_of_bytes p
      | r -> fail r)
+  | "Q" ->
+    (* a history of calls; every call line gives the VALUES of key, iv, a, x at the time of the call *)
+    let calls = List.map (fun c ->
+      match String.split_on_char ':' c with
+      | [fn; key; iv; a; x] ->
+        let fn = (match fn with "S1" -> FnSm4GCM true | "S0" -> FnSm4GCM false | "E" -> FnGCMEncrypt
+                              | "D" -> FnGCMDecrypt | "H" -> FnGetH | _ -> failwith "bad fn") in
+        { c_fn = fn; c_key = bytes_of_hex key; c_iv = bytes_of_hex iv; c_in = bytes_of_hex x; c_a = bytes_of_hex a }
+      | _ -> failwith "bad call") (split_list f.(2)) in
+    (match gcm_run e () calls with
+     | Ok rs -> "ok " ^ String.concat "," (List.map (function
+                   | RPair (x, t) -> hex_of_bytes x ^ "/" ^ hex_of_bytes t
+                   | RBlock h -> hex_of_bytes h) rs) ^ " 1"
+     | r -> fail r)
   | _ -> "BADCASE"
 
 let () = run_file Sys.argv.(1) handle
